@@ -95,6 +95,10 @@ func parseRules(content string) ([]parser.Rule, error) {
 	}
 	f := parser.NewParser(true, parser.PrometheusSchema, model.UTF8Validation).Parse(strings.NewReader(content))
 	if f.Error.Err != nil {
+		// several YAML documents in one file: relaxed mode (parser.relaxed in pint's configuration)
+		f = parser.NewParser(false, parser.PrometheusSchema, model.UTF8Validation).Parse(strings.NewReader(content))
+	}
+	if f.Error.Err != nil {
 		return nil, fmt.Errorf("file error: %v", f.Error.Err)
 	}
 	var out []parser.Rule
@@ -876,6 +880,7 @@ func runCase(c Case) (st caseStats, err error) {
 //
 //	anchor-before  some report is about a removed rule (AnchorBefore, old-side line numbers)
 //	github-page2   GitHub with more than one page (30) of pull request files or review comments
+//	old-no-eol     the old version of a file has no final newline (the diff carries "\ No newline at end of file")
 func knownClass(c Case, st caseStats) string {
 	for _, specs := range append([][]ReportSpec{c.Warm}, c.Runs...) {
 		for _, s := range specs {
@@ -886,6 +891,11 @@ func knownClass(c Case, st caseStats) string {
 	}
 	if c.Platform == "github" && (len(c.Files) > 30 || st.maxStore > 30) {
 		return "github-page2"
+	}
+	for _, f := range c.Files {
+		if f.OldNoEOL {
+			return "old-no-eol"
+		}
 	}
 	return ""
 }
@@ -947,6 +957,17 @@ func genRuleLines(t *rapid.T, lbl string, fi, k int) []string {
 	return l
 }
 
+// notes: comment lines a pull request adds inside a rule; some look like diff syntax.
+var notes = []string{
+	"    # note added in this pull request",
+	"    # note added in this pull request",
+	"    # -- was: 5m",
+	"    # ++ see runbook",
+	"    # @@ -1,2 +1,2 @@ copied from a review",
+	"    # \\ No newline at end of file",
+	"    # --- old value +++ new value",
+}
+
 func genFile(t *rapid.T, fi int, kind string, tiny bool) fakescm.File {
 	lbl := fmt.Sprintf("f%d", fi)
 	f := fakescm.File{Path: fmt.Sprintf("rules/file%d.yml", fi)}
@@ -961,68 +982,106 @@ func genFile(t *rapid.T, fi int, kind string, tiny bool) fakescm.File {
 		base = "-"
 	}
 	add := func(k, txt string) { f.Ops = append(f.Ops, fakescm.Op{K: k, T: txt}) }
-	add(base, "groups:")
-	add(base, fmt.Sprintf("- name: g%d", fi))
-	add(base, "  rules:")
-	n := rapid.IntRange(2, 6).Draw(t, lbl+".nrules")
-	if tiny {
-		n = 1
+	// one YAML document, or several separated by "---" (pint reads those in relaxed mode);
+	// the file may start with a "---" line, and the pull request may add or drop it
+	ndocs := 1
+	if !tiny && rapid.IntRange(0, 3).Draw(t, lbl+".multi") == 0 {
+		ndocs = rapid.IntRange(2, 3).Draw(t, lbl+".ndocs")
 	}
+	lead := rapid.IntRange(0, 2).Draw(t, lbl+".lead") == 0
 	changed := false
-	for k := 0; k < n; k++ {
-		rl := genRuleLines(t, fmt.Sprintf("%s.r%d", lbl, k), fi, k)
-		edit := "keep"
-		if base == " " {
-			edit = rapid.SampledFrom([]string{"keep", "keep", "modify", "modify", "modify", "add", "remove"}).Draw(t, fmt.Sprintf("%s.r%d.edit", lbl, k))
-			if k == n-1 && !changed && edit == "keep" {
-				edit = "modify"
-			}
+	k := 0
+	for d := 0; d < ndocs; d++ {
+		dl := fmt.Sprintf("%s.d%d", lbl, d)
+		docKind := base
+		if base == " " && d > 0 {
+			docKind = rapid.SampledFrom([]string{" ", " ", " ", "+", "-", "-"}).Draw(t, dl+".kind")
 		}
-		if edit != "keep" {
-			changed = true
+		sepKind := docKind
+		if d == 0 && lead && base == " " {
+			sepKind = rapid.SampledFrom([]string{" ", " ", "-", "-", "+"}).Draw(t, dl+".sep")
 		}
-		switch {
-		case base != " ":
-			for _, x := range rl {
-				add(base, x)
+		if d > 0 || lead {
+			add(sepKind, "---")
+		}
+		if docKind != " " || sepKind != " " {
+			changed = changed || base == " "
+		}
+		add(docKind, "groups:")
+		add(docKind, fmt.Sprintf("- name: g%d_%d", fi, d))
+		add(docKind, "  rules:")
+		n := rapid.IntRange(2, 6).Draw(t, dl+".nrules")
+		if ndocs > 1 {
+			n = rapid.IntRange(1, 3).Draw(t, dl+".nrules2")
+		}
+		if tiny {
+			n = 1
+		}
+		for r := 0; r < n; r++ {
+			rlbl := fmt.Sprintf("%s.r%d", lbl, k)
+			rl := genRuleLines(t, rlbl, fi, k)
+			edit := "keep"
+			if docKind == " " && base == " " {
+				edit = rapid.SampledFrom([]string{"keep", "keep", "modify", "modify", "modify", "add", "remove"}).Draw(t, rlbl+".edit")
+				if d == ndocs-1 && r == n-1 && !changed && edit == "keep" {
+					edit = "modify"
+				}
 			}
-		case edit == "keep":
-			for _, x := range rl {
-				add(" ", x)
+			if edit != "keep" {
+				changed = true
 			}
-		case edit == "add":
-			for _, x := range rl {
-				add("+", x)
-			}
-		case edit == "remove":
-			for _, x := range rl {
-				add("-", x)
-			}
-		default: // modify: replace 1-2 lines, maybe insert one
-			idx := rapid.IntRange(0, len(rl)-1).Draw(t, fmt.Sprintf("%s.r%d.mi", lbl, k))
-			idx2 := rapid.IntRange(-1, len(rl)-1).Draw(t, fmt.Sprintf("%s.r%d.mi2", lbl, k))
-			// a comment line is only inserted where it cannot cut a block scalar in two
-			ins := rapid.SampledFrom([]int{-1, -1, 0, len(rl) - 1}).Draw(t, fmt.Sprintf("%s.r%d.ins", lbl, k))
-			for i, x := range rl {
-				if i == idx || i == idx2 {
-					add("-", x)
-					if strings.HasSuffix(x, "|") {
-						add("+", x+"-")
-					} else {
-						add("+", x+" # rev2")
-					}
-				} else {
+			switch {
+			case docKind != " ":
+				for _, x := range rl {
+					add(docKind, x)
+				}
+			case edit == "keep":
+				for _, x := range rl {
 					add(" ", x)
 				}
-				if i == ins {
-					add("+", "    # note added in this pull request")
+			case edit == "add":
+				for _, x := range rl {
+					add("+", x)
+				}
+			case edit == "remove":
+				for _, x := range rl {
+					add("-", x)
+				}
+			default: // modify: replace 1-2 lines, maybe insert one
+				idx := rapid.IntRange(0, len(rl)-1).Draw(t, rlbl+".mi")
+				idx2 := rapid.IntRange(-1, len(rl)-1).Draw(t, rlbl+".mi2")
+				// a comment line is only inserted where it cannot cut a block scalar in two
+				ins := rapid.SampledFrom([]int{-1, -1, 0, len(rl) - 1}).Draw(t, rlbl+".ins")
+				for i, x := range rl {
+					if i == idx || i == idx2 {
+						add("-", x)
+						if strings.HasSuffix(x, "|") {
+							add("+", x+"-")
+						} else {
+							add("+", x+" # rev2")
+						}
+					} else {
+						add(" ", x)
+					}
+					if i == ins {
+						add("+", rapid.SampledFrom(notes).Draw(t, rlbl+".note"))
+					}
 				}
 			}
-		}
-		if rapid.IntRange(0, 2).Draw(t, fmt.Sprintf("%s.r%d.blank", lbl, k)) == 0 && k < n-1 {
-			add(base, "")
+			k++
+			if rapid.IntRange(0, 2).Draw(t, rlbl+".blank") == 0 && !(d == ndocs-1 && r == n-1) {
+				add(docKind, "")
+			}
 		}
 	}
+	// either version of the file may lack the final newline
+	if base != "+" {
+		f.OldNoEOL = rapid.IntRange(0, 5).Draw(t, lbl+".oldnoeol") == 0
+	}
+	if base != "-" {
+		f.NewNoEOL = rapid.IntRange(0, 5).Draw(t, lbl+".newnoeol") == 0
+	}
+	f.Normalize()
 	return f
 }
 
@@ -1289,9 +1348,25 @@ func genCase(t *rapid.T, known map[string]string) Case {
 		if !manyFiles || fi < 2 {
 			kind = rapid.SampledFrom(kinds).Draw(t, fmt.Sprintf("f%d.kind", fi))
 		}
-		c.Files = append(c.Files, genFile(t, fi, kind, manyFiles && fi >= 2))
+		f := genFile(t, fi, kind, manyFiles && fi >= 2)
+		if f.OldNoEOL && excluded(known, "old-no-eol") {
+			f.OldNoEOL = false
+			f.Normalize()
+		}
+		c.Files = append(c.Files, f)
 		if kind != "modified" {
 			used[kind] = true
+		}
+		if f.OldNoEOL || f.NewNoEOL {
+			used["no-eol"] = true
+		}
+		for _, op := range f.Ops {
+			if op.T == "---" {
+				used["doc-separator"] = true
+				if op.K != " " {
+					used["doc-separator-changed"] = true
+				}
+			}
 		}
 	}
 	w, err := newWorld(c)
@@ -1410,7 +1485,7 @@ func keys(m map[string]bool) string {
 func TestPropCommentRuns(t *testing.T) {
 	rec := vstat.New(t, prop)
 	known := vstat.KnownClasses(prop)
-	for _, cls := range []string{"anchor-before", "github-page2"} {
+	for _, cls := range []string{"anchor-before", "github-page2", "old-no-eol"} {
 		if excluded(known, cls) {
 			rec.Count("generator_excludes_"+cls, 1)
 		}
